@@ -106,7 +106,7 @@ def build_cli():
     return os.path.join(CLI_TARGET, "debug")
 
 
-def rv(args, timeout=300):
+def rv(args, timeout=600):
     rc, out = sh([RV] + [str(a) for a in args], timeout=timeout)
     if rc != 0:
         raise ToolError("recorder failed rc=%s: %s\n%s" % (rc, " ".join(map(str, args)), out[-2000:]))
@@ -211,6 +211,14 @@ def record_and_validate(ctx, jobs, module, cfg, prop_of=None, par=8, beyond=Fals
             # before the process aborts. A C-ABI call that kills the process (its native twin has returned) is data, not a tool error.
             if os.path.exists(path + ".abort"):
                 return name, path + ".abort", 1, ("abort", open(path + ".abort").read().strip()), 0, 0
+            # a call of the library that did not return: the recorder's watchdog (no event for 120 s) ended the process. The events
+            # written so far are validated as usual; if they are all accepted, the non-returning call itself is the violation.
+            if os.path.exists(path + ".hang") and os.path.exists(path) and nlines(path) >= 1:
+                n = nlines(path)
+                rej, gen, dist, out = validate_trace(ctx, module, cfg, path)
+                if rej is None:
+                    rej = ("hang", open(path + ".hang").read().strip())
+                return name, path, n, rej, gen, dist
             raise
         n = nlines(path)
         rej, gen, dist, out = validate_trace(ctx, module, cfg, path)
@@ -229,6 +237,18 @@ def record_and_validate(ctx, jobs, module, cfg, prop_of=None, par=8, beyond=Fals
             rp = os.path.join(ctx.replays, name + ".abort.json")
             shutil.copy(path, rp)
             ctx.violation("recording %s: the process aborted inside the C ABI (the native call had returned): %s" % (name, rej[1][:300]), rp)
+            continue
+        if rej is not None and rej[0] == "hang":
+            rp = os.path.join(ctx.replays, name + ".hang.ndjson")
+            shutil.copy(path, rp)
+            with open(rp, "a") as f:
+                f.write(json.dumps({"ev": "hang", "after_event": len(lines), "rerun": "rv " + " ".join(map(str, dict(jobs)[name]))}) + "\n")
+            msg = "recording %s: a call of the library did not return within the watchdog limit after event %d (%s); the call that follows that event in `rv %s`" % (
+                name, len(lines), lines[-1].strip()[:200], " ".join(map(str, dict(jobs)[name])))
+            if beyond:
+                ctx.deviations.append(msg)
+            else:
+                ctx.violation(msg, rp)
             continue
         if lines[1:]:
             ctx.sample({"trace": name, "event": json.loads(lines[min(len(lines) - 1, 7)])})
@@ -340,8 +360,11 @@ def gen_and_replay(ctx, module, cfg, family, what, timeout=600, workers=1, extra
     # one generated vector file may be replayed several times (different targets of the same behaviours)
     passes = extra_replay if extra_replay and isinstance(extra_replay[0], list) else [extra_replay or []]
     res = None
+    # the passes are independent processes: run them side by side
+    with cf.ThreadPoolExecutor(max_workers=4) as ex:
+        outs = list(ex.map(lambda xr: rv(["replay", family, "--in", vec] + xr, timeout=2400), passes))
     for k, xr in enumerate(passes):
-        res = json.loads(rv(["replay", family, "--in", vec] + xr, timeout=2400).strip().splitlines()[-1])
+        res = json.loads(outs[k].strip().splitlines()[-1])
         ctx.vectors += res["vectors"]
         ctx.extra.setdefault("replay_steps", 0)
         ctx.extra["replay_steps"] += res.get("steps", 0)
